@@ -23,12 +23,13 @@ LEVEL = "proof"
 FUNCTIONS = ["litedram.phy.lpddr4.commands:DFIPhaseAdapter.__init__", "litedram.phy.lpddr4.commands:Command.set",
              "litedram.phy.lpddr4.commands:Command.parse_bit", "litedram.phy.lpddr5.commands:DFIPhaseAdapter.__init__",
              "litedram.phy.lpddr5.commands:Command.set", "litedram.phy.lpddr5.commands:Command.parse_bit",
-             "litedram.phy.utils:CommandsPipeline.__init__", "litedram.phy.utils:ConstBitSlip.__init__"]
+             "litedram.phy.utils:CommandsPipeline.__init__", "litedram.phy.utils:ConstBitSlip.__init__",
+             "litedram.phy.lpddr4.basephy:LPDDR4PHY.__init__", "litedram.phy.lpddr5.basephy:LPDDR5PHY.__init__"]
 ASSUMPTIONS = [
     "JESD209-4 / JESD209-5 command truth tables transcribed by hand into the decoders below (trusted base); 'V' (valid "
     "either level) and reserved bits are not demanded",
-    "the base PHYs (lpddr4/basephy.py, lpddr5/basephy.py) only wire adapters to the pipeline and serializers; that wiring "
-    "is not under contract (the sim PHYs need vendor-less serializers outside this check)",
+    "base PHYs under contract on the simulation PHYs (LPDDR4SimPHY / LPDDR5SimPHY): adapter-per-phase, pipeline -> serializer "
+    "words, LPDDR5 two-cycle command buffer; the serializers themselves and the vendor PHYs' primitives are not under contract",
     "pipeline contract per configuration (phase counts, serializer widths, span); adapter outputs are free inputs there "
     "(any adapter), so it composes with the adapter contracts",
 ]
@@ -392,6 +393,88 @@ def _basic_now(f, ads, p, prev, n):
     return Not(Or(*before)) if before else z3.BoolVal(True)
 
 
+# ---- base-PHY wiring ------------------------------------------------------------------------------------------------------
+
+class _PhyHarness(Module):
+    def __init__(self, phy, refs):
+        self.submodules.phy = phy
+        self.submodules += refs
+
+
+def _same_adapter(f, a, r, nca):
+    return And(f(a.cs) == f(r.cs), f.b(a.valid) == f.b(r.valid), *[f(a.ca[i]) == f(r.ca[i]) for i in range(nca)])
+
+
+def lp4_phy_wiring_contract(cfg):
+    """real LPDDR4 base PHY (simulation serializers behind it): the adapters sit on the DFI phases in order, feed the
+    CommandsPipeline, whose CS/CA words are the words handed to the serializers"""
+    from litedram.phy.lpddr4.simphy import LPDDR4SimPHY
+    from litedram.phy.lpddr4.basephy import LPDDR4PHY
+    mw = cfg["masked_write"]
+    with capture_locals(LPDDR4PHY.__init__) as cap:
+        phy = LPDDR4SimPHY(sys_clk_freq=100e6, masked_write=mw, extended_overlaps_check=cfg.get("extended", False))
+    L = cap.of(phy)
+    refs = [A4(ph, masked_write=mw) for ph in phy.dfi.phases]
+    h = _PhyHarness(phy, refs)
+    free = []
+    for ph in phy.dfi.phases:
+        free += [ph.address, ph.bank, ph.cas_n, ph.cs_n, ph.ras_n, ph.we_n]
+    c = Contract("LPDDR4PHY.command_wiring", h, free, cfg=cfg)
+    adapters = L["adapters"]
+    c.ensures("adapter_i_encodes_dfi_phase_i", lambda f: And(*[_same_adapter(f, a, r, 4) for a, r in zip(adapters, refs)]))
+    c.ensures("one_adapter_per_phase", lambda f: len(adapters) == len(phy.dfi.phases))
+    c.ensures("serializer_words_are_the_pipeline_words", lambda f: And(
+        eqv(f(phy.out.cs), f(phy.commands.cs)), *[eqv(f(phy.out.ca[i]), f(phy.commands.ca[i])) for i in range(len(phy.out.ca))]))
+    pl = [l_ for l_ in cap.calls.get("LPDDR4PHY.__init__", [])]
+    c.ensures("pipeline_reads_these_adapters_with_the_configured_rule", lambda f: z3.BoolVal(
+        len(phy.commands.ca) == len(phy.out.ca)))
+    c.parts = dict(phy=phy, adapters=adapters)
+    return c
+
+
+def lp5_phy_command_contract(cfg):
+    """real LPDDR5 base PHY: a DFI command occupies CS/CA for two CK cycles (first half now, second half next cycle); a
+    command presented while the second half of an accepted command is on the bus is the only thing suppressed"""
+    from litedram.phy.lpddr5.simphy import LPDDR5SimPHY
+    from litedram.phy.lpddr5.basephy import LPDDR5PHY
+    mw = cfg["masked_write"]
+    with capture_locals(LPDDR5PHY.__init__) as cap:
+        phy = LPDDR5SimPHY(sys_clk_freq=100e6, masked_write=mw, wck_ck_ratio=cfg.get("wck_ck_ratio", 2))
+    L = cap.of(phy)
+    ph = phy.dfi.p0
+    ref = A5(ph, masked_write=mw)
+    h = _PhyHarness(phy, [ref])
+    h.comb += ref.wck_sync_done.eq(phy.adapter.wck_sync_done)
+    free = [ph.address, ph.bank, ph.cas_n, ph.cs_n, ph.ras_n, ph.we_n]
+    c = Contract("LPDDR5PHY.command_path", h, free, cfg=cfg)
+    sysck = lambda f: f.tick["sys"]                     # the other (serializer) domains tick freely; CS/CA logic is sys
+    ad, buf = phy.adapter, L["cmd_buf"]
+    c.ensures("adapter_encodes_dfi_phase_0", lambda f: And(
+        f.b(ad.valid) == f.b(ref.valid), f(ad.cs) == f(ref.cs), *[f(ad.ca[i]) == f(ref.ca[i]) for i in range(4)]))
+    # ghost: second half in flight
+    started = lambda f: And(f.b(ad.valid), Not(f.g.busy))
+    c.ghost("busy", "bool", False, lambda f: If_(sysck(f), started(f), f.g.busy))
+    c.ghost("h_cs", 1, 0, lambda f: If_(And(sysck(f), started(f)), f(ad.cmd2.cs), f.g.h_cs))
+    c.ghost("h_p", 7, 0, lambda f: If_(And(sysck(f), started(f)), f(ad.cmd2.ca[0]), f.g.h_p))
+    c.ghost("h_n", 7, 0, lambda f: If_(And(sysck(f), started(f)), f(ad.cmd2.ca[1]), f.g.h_n))
+    c.invariant("buffer_holds_the_second_half_of_the_command_started_last_cycle", lambda f: And(
+        f.b(buf.source.valid) == f.g.busy,
+        Implies(f.g.busy, And(f(buf.source.cs) == f.g.h_cs, f(buf.source.ca_p) == f.g.h_p, f(buf.source.ca_n) == f.g.h_n))))
+    sel = lambda f, second, first: If_(f.g.busy, second, If_(f.b(ad.valid), first, BV(0, first.size())))
+    c.ensures("chip_select_first_half_then_second_half_else_idle", lambda f: f(phy.out.cs) == sel(f, f.g.h_cs, f(ad.cmd1.cs)))
+    for bit_ in range(7):
+        c.ensures("ca%d_rising_and_falling_edge_words" % bit_, lambda f, bit_=bit_: And(
+            z3.Extract(0, 0, f(phy.out.ca[bit_])) == sel(f, z3.Extract(bit_, bit_, f.g.h_p), z3.Extract(bit_, bit_, f(ad.cmd1.ca[0]))),
+            z3.Extract(1, 1, f(phy.out.ca[bit_])) == sel(f, z3.Extract(bit_, bit_, f.g.h_n), z3.Extract(bit_, bit_, f(ad.cmd1.ca[1])))))
+    c.ensures("halves_are_the_adapter_slots", lambda f: And(
+        f(ad.cmd1.cs) == z3.Extract(0, 0, f(ad.cs)), f(ad.cmd2.cs) == z3.Extract(1, 1, f(ad.cs)),
+        f(ad.cmd1.ca[0]) == f(ad.ca[0]), f(ad.cmd1.ca[1]) == f(ad.ca[1]),
+        f(ad.cmd2.ca[0]) == f(ad.ca[2]), f(ad.cmd2.ca[1]) == f(ad.ca[3])))
+    c.cover("command_two_cycles_after_a_suppressed_one_is_sent", lambda f: And(f.b(ad.valid), Not(f.g.busy), f.g.h_cs == 1),
+            within=6)
+    return c
+
+
 def _r(d):
     d = dict(d)
     d["non_overlapping_traffic"] = True
@@ -411,6 +494,8 @@ def tasks(tier):
     for mw in (True, False):
         out.append(dict(fn="lp4_adapter_contract", cfg=dict(masked_write=mw), modes=["inductive", "difftest"], difftest_cycles=30))
         out.append(dict(fn="lp5_adapter_contract", cfg=dict(masked_write=mw), modes=["inductive", "difftest"], difftest_cycles=30))
+        out.append(dict(fn="lp5_phy_command_contract", cfg=dict(masked_write=mw), modes=["inductive", "cover", "difftest"], difftest_cycles=20))
+        out.append(dict(fn="lp4_phy_wiring_contract", cfg=dict(masked_write=mw, extended=not mw), modes=["inductive", "difftest"], difftest_cycles=10))
     for cfg in PIPE_CFGS:
         out.append(dict(fn="pipeline_contract", cfg=cfg, modes=["inductive", "difftest"], weight=5, difftest_cycles=60,
                         search_depth=12))
